@@ -27,15 +27,16 @@ import (
 var replayRepo = "/repo"
 
 type modelEval struct {
-	base  string // SMT query text up to and including (check-sat)
-	dir   string
-	cache map[string]string
-	runs  int
+	base     string // SMT query text up to and including (check-sat)
+	dir      string
+	cache    map[string]string
+	runs     int
+	deadline time.Time
 }
 
 func newModelEval(o *Obligation) *modelEval {
 	q := o.smt(false)
-	return &modelEval{base: q, cache: map[string]string{}}
+	return &modelEval{base: q, cache: map[string]string{}, deadline: time.Now().Add(30 * time.Second)}
 }
 
 // eval returns the model values of the given terms (one solver run).
@@ -52,7 +53,7 @@ func (m *modelEval) eval(terms []string) map[string]string {
 	if len(need) == 0 {
 		return out
 	}
-	if m.runs > 400 {
+	if m.runs > 80 || time.Now().After(m.deadline) {
 		return out
 	}
 	m.runs++
@@ -68,9 +69,9 @@ func (m *modelEval) eval(terms []string) map[string]string {
 	defer os.Remove(f.Name())
 	f.WriteString(sb.String())
 	f.Close()
-	ctx, cancel := context.WithTimeout(context.Background(), 20*time.Second)
+	ctx, cancel := context.WithTimeout(context.Background(), 8*time.Second)
 	defer cancel()
-	res, _ := exec.CommandContext(ctx, "z3-new", "-t:15000", f.Name()).CombinedOutput()
+	res, _ := exec.CommandContext(ctx, "z3-new", "-t:6000", f.Name()).CombinedOutput()
 	lines := splitSexprs(string(res))
 	if len(lines) == 0 || strings.TrimSpace(lines[0]) != "sat" {
 		return out
@@ -358,10 +359,9 @@ func (b *builder) value(term string, t types.Type, depth int) string {
 	case *types.Slice:
 		lnS := b.get("(sl-len " + term + ")")
 		arrS := b.get("(sl-arr " + term + ")")
-		offS := b.get("(sl-off " + term + ")")
 		ln, _ := parseSMTInt(lnS)
 		arr, _ := parseSMTInt(arrS)
-		off, _ := parseSMTInt(offS)
+		off := int64(0)
 		if arr == 0 {
 			return "nil"
 		}
@@ -453,6 +453,25 @@ func (b *builder) fill(name, ref string, t types.Type, depth int) {
 	vc := b.vc
 	switch u := t.Underlying().(type) {
 	case *types.Struct:
+		// one solver run for all the fields
+		var pre []string
+		for i := 0; i < u.NumFields(); i++ {
+			comp := "F$" + typeShort(t) + "$" + u.Field(i).Name()
+			if _, used := vc.compSort[comp]; used {
+				ft := sel(vc.cur(b.st, comp), ref)
+				switch vc.enc.sortOf(u.Field(i).Type()) {
+				case sSlice:
+					pre = append(pre, "(sl-len "+ft+")", "(sl-arr "+ft+")")
+				case sIface:
+					pre = append(pre, "(if-tag "+ft+")", "(if-data "+ft+")")
+				default:
+					if _, isStruct := u.Field(i).Type().Underlying().(*types.Struct); !isStruct {
+						pre = append(pre, ft)
+					}
+				}
+			}
+		}
+		b.m.eval(pre)
 		for i := 0; i < u.NumFields(); i++ {
 			f := u.Field(i)
 			if _, nested := f.Type().Underlying().(*types.Struct); nested {
